@@ -210,7 +210,10 @@ pub fn parse_program(t: &mut Toks) -> ParsedProgram {
         hashes.push(b.hash());
         match flag {
             "K" => {
-                kernel.push(b.hash());
+                // two generated kernel procedures may be identical: the kernel is a set of hashes
+                if !kernel.contains(&b.hash()) {
+                    kernel.push(b.hash());
+                }
                 table.insert(b);
             }
             "U" => table.insert(b),
